@@ -25,6 +25,7 @@ Every run records its exact schedule [(loop iteration, phase, command)]; Run(rep
 import asyncio
 import signal
 import socket
+import time
 
 from harness import vloop
 from wpull.errors import NetworkError, ConnectionRefused
@@ -36,8 +37,15 @@ class Livelock(BaseException):
     pass
 
 
+_started = [0.0]
+
+
 def _alarm(signum, frame):
-    raise Livelock()
+    # the timer counts the CPU time of the whole process (TLC reader threads included): only the time of the
+    # thread that executes the code under test decides
+    if time.thread_time() - _started[0] > Run.watchdog_s:
+        raise Livelock()
+    signal.setitimer(signal.ITIMER_VIRTUAL, Run.watchdog_s / 2)
 
 
 class SimpleConn(object):
@@ -80,6 +88,9 @@ class SimpleResolver(object):
         n = int(host[1:].split('.')[0])
         return ResolveResult([AddressInfo('10.0.0.%d' % n, socket.AF_INET, None, None)])
         yield  # pragma: no cover
+
+
+HPAD = 3
 
 
 def host_of(k):
@@ -161,7 +172,7 @@ class Run(object):
         pool = self.pool
         ps = []
         dead = set()
-        for k in range(1, self.H + 1):
+        for k in range(1, max(self.H, HPAD) + 1):     # padded: traces with different H share a TLC batch
             hp = pool.host_pools.get(self.keyt(k))
             if hp is None:
                 ps.append({'pr': False, 'rd': [], 'bz': [], 'w': 0, 'lk': False, 'wneg': False})
@@ -171,7 +182,7 @@ class Run(object):
             for x in tuple(hp.ready) + tuple(hp.busy):
                 if x.closed():
                     dead.add(self.cid(x))
-            w = pool._host_pool_waiters.get(self.keyt(k), 0)
+            w = getattr(pool, '_host_pool_waiters', {}).get(self.keyt(k), 0)
             lk = bool(getattr(getattr(hp, '_lock', None), 'locked', lambda: False)())
             ps.append({'pr': True, 'rd': rd, 'bz': bz, 'w': max(w, 0), 'lk': lk, 'wneg': w < 0})
         for x in self.conn_of.values():
@@ -223,7 +234,7 @@ class Run(object):
         return fut
 
     def track_release_task(self, r, x, conn, before):
-        new = [t for t in self.pool._release_tasks if t not in before]
+        new = [t for t in getattr(self.pool, '_release_tasks', ()) if t not in before]
         task = new[0] if new else None
         if task is not None:
             self.rel_tasks[r] = (task, conn)
@@ -280,7 +291,7 @@ class Run(object):
             if mode == 'n':
                 self.nrel += 1
                 r = self.nrel
-                before = set(pool._release_tasks)
+                before = set(getattr(pool, '_release_tasks', ()))
                 self.rel_of[id(conn)] = r
                 self.rel_x[r] = x
                 pool.no_wait_release(conn)
@@ -490,6 +501,7 @@ class Run(object):
     def execute(self):
         self.build()
         old = signal.signal(signal.SIGVTALRM, _alarm)
+        _started[0] = time.thread_time()
         signal.setitimer(signal.ITIMER_VIRTUAL, self.watchdog_s)
         try:
             try:
